@@ -453,8 +453,8 @@ func ruleE6(c *Ctx) {
 		}
 		// enclosing x type
 		xT := ""
-		for _, pc := range pathConds(ifi.Block()) {
-			if ex2, ok := pc.If.Cond.(*ssa.Extract); ok && pc.Branch {
+		for _, pf := range pathFacts(ifi.Block()) {
+			if ex2, ok := pf.Cond.(*ssa.Extract); ok && pf.Truth {
 				if ta2, ok := ex2.Tuple.(*ssa.TypeAssert); ok && ta2.X == xP {
 					xT = qualType(ta2.AssertedType)
 				}
